@@ -65,10 +65,10 @@ def pattern(direction: int, off: int, n: int) -> bytes:
 
 
 # ------------------------------------------------------------------------------------------------ strategy
-_size = st.one_of(st.integers(1, 64), st.integers(1, 3000), st.integers(1, 3000),
-                  st.sampled_from([1, 16383, 16384, 16385, 16400, 32768, 40000]),
-                  # one write larger than any internal buffer of the TLS plumbing (64 KiB BIO reads, 16 KiB records)
-                  st.sampled_from([65000, 65536, 70000, 100000, 131072, 200000, 300000]))
+_small_sizes = [st.integers(1, 64), st.integers(1, 3000), st.integers(1, 3000),
+                st.sampled_from([1, 16383, 16384, 16385, 16400, 32768, 40000])]
+# about one size in 13: a single write larger than any internal buffer of the TLS plumbing (64 KiB BIO reads, 16 KiB records)
+_size = st.one_of(_small_sizes * 3 + [st.sampled_from([65000, 65536, 70000, 100000, 131072, 200000, 300000])])
 _cut = st.one_of(st.just(0), st.integers(1, 40), st.integers(1, 600), st.sampled_from([1, 2, 4, 5, 6, 21, 22, 29, 16384 + 21]))
 _op = st.one_of(
     st.tuples(st.sampled_from(["cw", "sw", "cw", "sw", "pc", "ps"]), _size),
